@@ -429,7 +429,7 @@ def run_property(prop, tier, seed, only=None):
     new_violations = []  # (step_info, violation)
     inconclusive = []
     monitors_out = []
-    assumptions = set(plans.ASSUMPTIONS.get(prop, []))
+    assumptions = set(plans.ASSUMPTIONS.get(prop, [])) | set(plans.COMMON_ASSUMPTIONS)
     total_eval = 0
     samples = []
     rules = []
